@@ -4,7 +4,7 @@
    translated from eventual.py / promise.py (src_cfg, src_pcfg). *)
 From Coq Require Import ZArith List Bool.
 Import ListNotations.
-Require Import Verif.gen.EventualGen Verif.lib.Eventual Verif.lib.EventualProofs.
+Require Import Verif.gen.EventualGen Verif.lib.Eventual Verif.lib.EventualProofs Verif.lib.Promise Verif.lib.PromiseProofs.
 Local Open Scope Z_scope.
 
 (* "A callable passed to the eventual-send primitive never runs before the caller returns":
@@ -50,3 +50,74 @@ Theorem C17_ev_flush : forall ops st t,
   Forall (fun e => match e with FlushFired _ n r => n = 0%nat /\ r = false | _ => True end) t.
 Proof. exact ev_flush. Qed.
 Print Assumptions C17_ev_flush.
+
+(* ------------------------------------------------------------------ Promises *)
+
+(* "it cannot be resolved twice": resolving (value / promise / Failure) a promise that is not
+   EVENTUAL is refused with UsageError and changes nothing *)
+Theorem C17_pr_second_resolve_refused : forall s p pr x,
+  tbl s p = Some pr -> pstate pr <> SEventual ->
+  resolve_call src_pcfg true s p x = (s, [ERefused p true]).
+Proof. exact pr_second_resolve_refused. Qed.
+Print Assumptions C17_pr_second_resolve_refused.
+
+(* ... and in every reachable state an accepted resolution (also a break: D10) leaves EVENTUAL *)
+Theorem C17_pr_resolve_leaves_eventual : forall ops s t p pr x s' e,
+  prun src_pcfg ps0 ops = (s, t) -> tbl s p = Some pr -> pstate pr = SEventual ->
+  (match x with RProm q => tbl s q <> None | _ => True end) ->
+  resolve_call src_pcfg true s p x = (s', e) ->
+  exists pr', tbl s' p = Some pr' /\ pstate pr' <> SEventual.
+Proof. exact pr_resolve_leaves_eventual. Qed.
+Print Assumptions C17_pr_resolve_leaves_eventual.
+
+(* "once resolved or broken ...": NEAR v / BROKEN f is kept, with the same target, through every
+   further program (sends, observers, resolutions, chains firing, turns) *)
+Theorem C17_pr_stable : forall ops1 ops2 s1 t1 s2 t2 p pr,
+  prun src_pcfg ps0 ops1 = (s1, t1) -> tbl s1 p = Some pr ->
+  (pstate pr = SNear \/ pstate pr = SBroken) ->
+  prun src_pcfg s1 ops2 = (s2, t2) ->
+  tbl s2 p = Some pr /\
+  exists o, ptarget pr = Some o /\ (pstate pr = SNear <-> exists v, o = Val v).
+Proof. exact pr_stable. Qed.
+Print Assumptions C17_pr_stable.
+
+(* "... every past and future observer (when/_then/_except/sends) sees that same outcome": all that
+   a run reports about a promise -- observers told, messages handed over -- carries one outcome,
+   the promise's final target *)
+Theorem C17_pr_observers_agree : forall ops s t p e1 o1,
+  prun src_pcfg ps0 ops = (s, t) -> In e1 t -> outcome_of p e1 = Some o1 ->
+  (exists pr, tbl s p = Some pr /\ ptarget pr = Some o1 /\
+              pstate pr = match o1 with Val _ => SNear | Fail _ => SBroken end) /\
+  forall e2 o2, In e2 t -> outcome_of p e2 = Some o2 -> o2 = o1.
+Proof. exact pr_observers_agree. Qed.
+Print Assumptions C17_pr_observers_agree.
+
+(* "A Promise delivers every message sent to it, in send order and exactly once, to its resolution".
+   FULL STATEMENT (not closed in Coq; checked directly on the code by oracle/delivery-order):
+     forall ops s t p, prun src_pcfg ps0 ops = (s, t) ->
+       sent_to p t = delivered_to p t ++ queued_for p (queue s) ++ pending_of s p.
+   Proved: the three local facts it follows from, given the FIFO discipline C17_ev_fifo. *)
+Theorem C17_pr_order_send_partial : forall s p pr m b wr s' e,
+  tbl s p = Some pr -> (p < next s)%nat -> send_op src_pcfg s p m b wr = (s', e) ->
+  (pending_state (pstate pr) = true -> plive pr = true ->
+     pending_of s' p = pending_of s p ++ [m] /\ queue s' = queue s) /\
+  (pending_state (pstate pr) = false ->
+     pending_of s' p = pending_of s p /\ exists mm, mid mm = m /\ queue s' = queue s ++ [TDeliver p mm]).
+Proof. exact pr_order_send_partial. Qed.
+Print Assumptions C17_pr_order_send_partial.
+
+Theorem C17_pr_order_release_partial : forall top s p pr o s' e,
+  tbl s p = Some pr -> plive pr = true -> pstate pr <> SBroken ->
+  resolve2 src_pcfg top s p o = (s', e) ->
+  e = [] /\ pending_of s' p = [] /\
+  queue s' = queue s ++ map (TDeliver p) (ppending pr) ++ map (fun wt => TCallback p wt o) (pwatch pr).
+Proof. exact pr_order_release_partial. Qed.
+Print Assumptions C17_pr_order_release_partial.
+
+Theorem C17_pr_once_deliver_partial : forall s q' p m pr o s' e,
+  queue s = TDeliver p m :: q' -> tbl s p = Some pr -> ptarget pr = Some o ->
+  run_one src_pcfg s = (s', e) ->
+  (forall p', delivered_to p' e = if Nat.eqb p p' then [mid m] else []) /\
+  outcome_of p (hd (ESent 0 0) e) = Some o.
+Proof. exact pr_once_deliver_partial. Qed.
+Print Assumptions C17_pr_once_deliver_partial.
